@@ -381,6 +381,11 @@ def family():
         [cf('note', '"n/a"', ('max_length', '50')), cf('qty', '0', ('null', 'false'))],
         [add('extra', '7'), cf('note', None, ('max_length', '30')), cf('score', '-1', ('null', 'false'))],
         [cf('qty', '0', ('null', 'false')), cf('score', '-1', ('null', 'false')), add('extra', '7')],
+        # two changes of one field in a batch, the later one restating what the earlier one set
+        [cf('note', None, ('max_length', '40')), add('extra', '7'), cf('qty', '-1', ('null', 'false')),
+         cf('note', '"n/a 100% \'q\'"', ('max_length', '60'), ('null', 'false'))],
+        [cf('qty', '3', ('null', 'false')), cf('qty', '3', ('null', 'false'))],
+        [cf('code', None, ('max_length', '12')), cf('code', '"X"', ('max_length', '12'), ('null', 'false'))],
     ]
     return [(spec, c) for c in cases]
 
